@@ -182,9 +182,14 @@ func (r *Report) Finish(verifDir string, start time.Time, seed int) int {
 	// minimum instance counts: a rule matching too few constructs fails.
 	for _, id := range r.ruleOrder {
 		ri := r.rules[id]
-		if ri.Matched < ri.Min {
+		// The floor guards against a rule that lost its anchors and passes vacuously; it is not a
+		// clause of the property. Min is the count confirmed by hand on the pinned tree; half of
+		// it is required, so that folding duplicate sites into one (two identical branches merged,
+		// five commands sharing a new helper) is not reported, while losing most anchors is.
+		min := (ri.Min + 1) / 2
+		if ri.Matched < min {
 			r.add(id, "<instance-count>", "-", Undecided,
-				fmt.Sprintf("rule matched %d constructs, expected at least %d — anchors moved or rule table needs review", ri.Matched, ri.Min))
+				fmt.Sprintf("rule matched %d constructs, expected at least %d (half of the %d confirmed on the pinned tree) — anchors moved or rule table needs review", ri.Matched, min, ri.Min))
 			ri.Matched-- // the pseudo obligation is not an instance
 		}
 	}
